@@ -289,6 +289,18 @@ func c13ImageMutants(c *Ctx, img []byte, emit func(class string, b []byte)) {
 		for _, v := range []uint32{0, 1, 7, 8, 9, uint32(len(t)), uint32(len(t) + 1), 0x7fffffff, 0xffffffff} {
 			emit("wincert-dwLength", set32(va, v))
 		}
+		// a table that is still the tail of the file but ends early: the file cut by 1..9, 15, 16, 17 bytes (inside
+		// the padding behind the last entry, inside the entry) with the directory size lowered to match, so that
+		// Parse's "the table is the tail of the file" check is met
+		sz := int(binary.LittleEndian.Uint32(img[dd+4:]))
+		for _, cut := range []int{1, 2, 3, 4, 5, 6, 7, 8, 9, 15, 16, 17, len(t) - 9, len(t) - 8, len(t) - 1} {
+			if cut <= 0 || cut >= sz || cut >= len(img) {
+				continue
+			}
+			m := append([]byte{}, img[:len(img)-cut]...)
+			binary.LittleEndian.PutUint32(m[dd+4:], uint32(sz-cut))
+			emit("certdir-tail-cut", m)
+		}
 	}
 }
 
@@ -697,7 +709,7 @@ func c13Gen(c *Ctx) {
 
 func init() {
 	register("C13", &PropDef{
-		Rule:   "image entry points (Parse, Signatures, Hash, Bytes, Verify) and signature entry points (ParsePKCS7, ParseAuthenticode, both Verifys) in a sandboxed worker process (address-space limit, per-input timeout, TotalAlloc delta). Images: repository binaries, generated signed images and a generated image with two section headers that declare raw data without a file pointer (PointerToRawData = 0), under sweeps of e_lfanew, SizeOfOptionalHeader, NumberOfSections, NumberOfRvaAndSizes, SizeOfHeaders, section offsets/sizes (incl. overlap, 2^31, 2^32-1), certificate directory address/size beyond the file, WIN_CERTIFICATE dwLength (<8, huge), every ~2% truncation point, random header bytes; the section sweeps cover the first three and the last section header (raw data at / beyond the end of the file included). Signatures inside the certificate table: two signed generated images with their own signature replaced by each derived blob - the targeted forgeries (every object identifier outside the certificates, among them the digest algorithm of the SpcIndirectDataContent DigestInfo, replaced by each of seven siblings (SHA-1/384/512, ...) alone and with a content change; dropped signed attributes; several signer entries; blobs nested inside blobs), the optional fields below, and a fifth of the generic mutations - parsed, listed, hashed (SHA-256 and SHA-1/384/512), re-serialised and verified through PECOFFBinary.Verify with the certificate of the signer. WIN_CERTIFICATEs (certificate-table entries of the signed images, signature blobs in a fresh wrapper, an empty and a GUID-typed one) are read by ReadWinCertificate through 8 kinds of io.Reader (bytes.Reader, bytes.Buffer, bufio.Reader, io.SectionReader, an open os.File, io.Pipe, a reader with no method but Read, a one-byte reader) with dwLength in {0,1,7,8,9,n-1,n,n+1,n+8,2n,2^16,2^20,2^24,2^28,2^31-1,2^31,2^32-8,2^32-1} over the full body and over 0..16 bytes of body, truncations and wrong revisions; the same time/memory oracle, and the decoded fields are compared with the Lean model of the reader for every kind. Signatures: library/fixture/CMS-shaped blobs under bit flips, per-leaf flips, structural DER edits, targeted forgeries (incl. dropped signed attributes, two-signer-entry combinations, and blobs nested inside blobs: unsigned attributes, certificates, CRLs, content, signer entries, trailing fields), oversized and truncated lengths; the OPTIONAL fields of the syntax that the library never writes (unauthenticatedAttributes [1] at the end of every signer entry, crls [1]) holding nothing / a well-formed attribute / ill-shaped readable elements / 200 empty attributes / bytes that are no DER element at all (truncated element, lone zero byte, lone tag, length beyond the input, indefinite and non-minimal length, high tag number, readable then truncated; alone and behind a well-formed attribute) - quick: a rotating quarter of these contents per blob, all of them for every ninth blob; and the same unreadable bytes behind the last child of every constructed element outside the certificates (every ninth blob; thorough: every blob, inside the certificates too); every signer entry's version field set to each CMSVersion value 0..5 crossed with each form of its signer identifier (issuerAndSerialNumber as it is, the [0] subjectKeyIdentifier alternative of RFC 5652 5.3 holding the key identifier of the verifying certificate or nothing, the same tag in constructed form, no identifier at all) - for the signature blobs and, inside the certificate table of the signed images, through PECOFFBinary.Verify; each verified with the certificate its signer entry names and, for a quarter, with a stranger's. Non-trivial: non-empty input; distinct = distinct inputs.",
+		Rule:   "image entry points (Parse, Signatures, Hash, Bytes, Verify) and signature entry points (ParsePKCS7, ParseAuthenticode, both Verifys) in a sandboxed worker process (address-space limit, per-input timeout, TotalAlloc delta). Images: repository binaries, generated signed images and a generated image with two section headers that declare raw data without a file pointer (PointerToRawData = 0), under sweeps of e_lfanew, SizeOfOptionalHeader, NumberOfSections, NumberOfRvaAndSizes, SizeOfHeaders, section offsets/sizes (incl. overlap, 2^31, 2^32-1), certificate directory address/size beyond the file, WIN_CERTIFICATE dwLength (<8, huge), the file cut by 1..17 bytes (and down to 1, 8, 9 bytes of table) with the directory size lowered to match (a table that ends inside the padding of its last entry or inside the entry), every ~2% truncation point, random header bytes; the section sweeps cover the first three and the last section header (raw data at / beyond the end of the file included). Signatures inside the certificate table: two signed generated images with their own signature replaced by each derived blob - the targeted forgeries (every object identifier outside the certificates, among them the digest algorithm of the SpcIndirectDataContent DigestInfo, replaced by each of seven siblings (SHA-1/384/512, ...) alone and with a content change; dropped signed attributes; several signer entries; blobs nested inside blobs), the optional fields below, and a fifth of the generic mutations - parsed, listed, hashed (SHA-256 and SHA-1/384/512), re-serialised and verified through PECOFFBinary.Verify with the certificate of the signer. WIN_CERTIFICATEs (certificate-table entries of the signed images, signature blobs in a fresh wrapper, an empty and a GUID-typed one) are read by ReadWinCertificate through 8 kinds of io.Reader (bytes.Reader, bytes.Buffer, bufio.Reader, io.SectionReader, an open os.File, io.Pipe, a reader with no method but Read, a one-byte reader) with dwLength in {0,1,7,8,9,n-1,n,n+1,n+8,2n,2^16,2^20,2^24,2^28,2^31-1,2^31,2^32-8,2^32-1} over the full body and over 0..16 bytes of body, truncations and wrong revisions; the same time/memory oracle, and the decoded fields are compared with the Lean model of the reader for every kind. Signatures: library/fixture/CMS-shaped blobs under bit flips, per-leaf flips, structural DER edits, targeted forgeries (incl. dropped signed attributes, two-signer-entry combinations, and blobs nested inside blobs: unsigned attributes, certificates, CRLs, content, signer entries, trailing fields), oversized and truncated lengths; the OPTIONAL fields of the syntax that the library never writes (unauthenticatedAttributes [1] at the end of every signer entry, crls [1]) holding nothing / a well-formed attribute / ill-shaped readable elements / 200 empty attributes / bytes that are no DER element at all (truncated element, lone zero byte, lone tag, length beyond the input, indefinite and non-minimal length, high tag number, readable then truncated; alone and behind a well-formed attribute) - quick: a rotating quarter of these contents per blob, all of them for every ninth blob; and the same unreadable bytes behind the last child of every constructed element outside the certificates (every ninth blob; thorough: every blob, inside the certificates too); every signer entry's version field set to each CMSVersion value 0..5 crossed with each form of its signer identifier (issuerAndSerialNumber as it is, the [0] subjectKeyIdentifier alternative of RFC 5652 5.3 holding the key identifier of the verifying certificate or nothing, the same tag in constructed form, no identifier at all) - for the signature blobs and, inside the certificate table of the signed images, through PECOFFBinary.Verify; each verified with the certificate its signer entry names and, for a quarter, with a stranger's. Non-trivial: non-empty input; distinct = distinct inputs.",
 		Assume: []string{"allocation budget 64 bytes per input byte + 4 MiB; time limit 0.5 s + 1 µs per input byte; an input that got no answer after ten times its limit (at least 5 s) is reported as hanging and the worker is killed; after 3 such inputs the rest of the run is not executed (class not-run-after-timeouts)", "wall-clock time and resident memory are runtime facts measured on the sampled inputs only"},
 		Eval:   c13Eval, Gen: c13Gen,
 	})
